@@ -199,6 +199,20 @@ func init() {
 		return Val{T: i.Type(), C: []string{n, errV.C[0], errV.C[1]}}
 	})
 
+	// ------------------------------------------------------------------ small pure gorgonia accessors
+	pureInt := func(hint string) intrinsic {
+		return func(x *Exec, fr *Frame, i *ssa.Call, fn *ssa.Function, args []Val) Val {
+			return x.freshVal(hint, i.Type())
+		}
+	}
+	reg("tensor.Slice.Start", "pure accessor: some int", pureInt("slice_start"))
+	reg("tensor.Slice.End", "pure accessor: some int", pureInt("slice_end"))
+	reg("tensor.Slice.Step", "pure accessor: some int", pureInt("slice_step"))
+	reg("(*gorgonia.org/tensor.array).Len", "pure accessor: number of elements (some int >= 0)", func(x *Exec, fr *Frame, i *ssa.Call, fn *ssa.Function, args []Val) Val {
+		v := x.freshVal("array_len", i.Type())
+		x.assume("true", sx(">=", v.C[0], "0"))
+		return v
+	})
 	// ------------------------------------------------------------------ sort
 	reg("sort.Ints", "sorts in place: afterwards non-decreasing (pairwise) and a permutation of the old contents (bijection on the index range); nothing else changes. Two derived facts are stated as well: equal old elements end up adjacent, pairwise distinct old elements end up strictly increasing", func(x *Exec, fr *Frame, i *ssa.Call, fn *ssa.Function, args []Val) Val {
 		st := fr.curSt
